@@ -17,6 +17,7 @@ local macro "bump_up_setup" : tactic => `(tactic| (
   clear hdav h
   obtain ⟨hm, hm16, hm16d, ha, ha64, hap, hmp, hs0, he0, hs64, he64, hsz, htr, h16, hr⟩ := hf
   simp only [↓reduceIte] at hr
+  have hszI : as_isize sz = (sz : Int) := as_isize_small' (by omega)
   unfold Spec.bumpUp
   have he16 : 16 ∣ e := by
     rcases hr with ⟨_, _, _, h⟩ | ⟨_, h, _⟩ <;> exact h
@@ -41,9 +42,10 @@ local macro "bump_up_setup" : tactic => `(tactic| (
 
 /- final evaluation of one path -/
 syntax "bump_up_leaf" " [" Lean.Parser.Tactic.simpLemma,* "]" : tactic
+set_option hygiene false in
 macro_rules
   | `(tactic| bump_up_leaf [$ls,*]) =>
-    `(tactic| rs_simp [assert_band_add, upAlign_add_self, Option.map_some, Option.map_none, $ls,*])
+    `(tactic| rs_simp [hszI, assert_band_add, upAlign_add_self, Option.map_some, Option.map_none, $ls,*])
 
 /- fast path (`align ≤ 16` known at compile time), for the block address `X` -/
 set_option hygiene false in
@@ -123,7 +125,7 @@ local macro "bump_up_phase1_true" : tactic => `(tactic| (
   · simp only [b0, ↓reduceIte, Bool.false_eq_true]
     bump_up_generic))
 
-set_option profiler true in
+set_option trace.Meta.Tactic.simp.discharge true in
 set_option maxHeartbeats 4000000 in
 theorem bump_up_ok_true (p : BumpProps) (h : Valid true p) (hsic : p.size_is_const = true) :
     bump_up p = .ok ((Spec.bumpUp p.start p.«end» p.layout.size p.layout.align p.min_align).map
